@@ -337,11 +337,31 @@ class Compiler:
         if not link_base["promise"].settled:
             link_base["promise"].settle(0o1000)
 
-        base, code = wait(link_base["promise"]), wait(generated_code)
+        try:
+            base, code = wait(link_base["promise"]), wait(generated_code)
+        except DeferredCycle:
+            base, code = None, None
 
         # Resolve all symbols, in case some have not been used
-        for _, (_, value) in self.symbols.items():
-            wait(value)
+        cycle_reported = False
+        for _, (symbol, value) in self.symbols.items():
+            try:
+                wait(value)
+            except DeferredCycle:
+                reports.error(
+                    "recursive-definition",
+                    (symbol.ctx_start, symbol.ctx_end, "The value of this symbol depends on itself and thus cannot be determined.")
+                )
+                cycle_reported = True
+
+        if code is None:
+            if not cycle_reported:
+                location = files_ast[0].body
+                reports.error(
+                    "recursive-definition",
+                    (location.ctx_start, location.ctx_start, "The program contains a value that depends on itself (for example, the size of a block\nthat depends on the address of a label after it) and thus cannot be compiled.")
+                )
+            raise reports.UnrecoverableError()
 
         return base, code
 
